@@ -355,7 +355,14 @@ func NewSugarDB(options ...func(sugarDB *SugarDB)) (*SugarDB, error) {
 				case <-ticker.C:
 					// Run key eviction for each database that has volatile keys.
 					wg := sync.WaitGroup{}
+					// The volatile keys map is written to by commands: read the databases under its lock.
+					sugarDB.keysWithExpiry.rwMutex.RLock()
+					databases := make([]int, 0, len(sugarDB.keysWithExpiry.keys))
 					for database, _ := range sugarDB.keysWithExpiry.keys {
+						databases = append(databases, database)
+					}
+					sugarDB.keysWithExpiry.rwMutex.RUnlock()
+					for _, database := range databases {
 						wg.Add(1)
 						ctx := context.WithValue(context.Background(), "Database", database)
 						go func(ctx context.Context, wg *sync.WaitGroup) {
